@@ -43,6 +43,14 @@ def z_configs(tier):
                     # the cell (floating point), after which an exact tie is decided by rounding
                     thr2x2 = int([2, 8, 18][ci % 3])
                 out.append({"cellname": name, "cell": cell, "pbc": list(pbc), "pos": pos, "thr2x2": thr2x2, "k": k})
+            if name in ("mangled", "sheared") and any(pbc):
+                # strongly sheared cells (long vectors, small heights) with the largest thresholds and 4-8 atoms, in both tiers: where a
+                # shortcut that measures distances to periodic images along the cell vectors goes wrong
+                for kk in (0, 1):
+                    rng = rng_for("c09z-sheared", name, pbc, kk)
+                    n = min(int(rng.integers(4, 9)), len(pts))
+                    pos = [pts[i] for i in rng.choice(len(pts), n, replace=False)]
+                    out.append({"cellname": name, "cell": cell, "pbc": list(pbc), "pos": pos, "thr2x2": [13, 19][kk], "k": 100 + kk})
     return out
 
 
